@@ -21,7 +21,7 @@
     networkx VF2 (is_isomorphic) is modelled by an exhaustive backtracking search over the verified
     candidate test [ok] of lib/Mono.v. *)
 From Coq Require Import List NArith ZArith Bool.
-From SK Require Import lib.Tok lib.LGraph lib.Mono model.C01_Model model.C02_Model.
+From SK Require Import lib.Tok lib.LGraph lib.Mono model.C01_Model model.C02_Model model.C01_Opts.
 From SK Require model.C08_Model.
 Import ListNotations.
 Local Open Scope Z_scope.
@@ -49,6 +49,8 @@ Definition wl_order (ranks : list (N * Z)) (G : mgraph) : list N :=
   C08_Model.sort_by (fun v => [C08_Model.rank_of ranks v; C08_Model.degree g v; Z.of_N v]) (node_ids g).
 (** NautyCanonicalizer: the best leaf of the search *)
 Definition nauty_order (G : mgraph) : list N := C08_Model.nauty_perm (to_c08 G).
+(** back-end generic (_canon_generic): sorted(nodes, key = ((element, charge, aromatic, hcount), id)) *)
+Definition generic_order (G : mgraph) : list N := map fst (C08_Model.sort_by C08_Model.nkey_id (gnodes (to_c08 G))).
 (** mapping = {old: i + 1 for i, old in enumerate(order)} *)
 Definition sigma_of (order : list N) : N -> N := C08_Model.apply_map (C08_Model.mapping_of order).
 
@@ -150,6 +152,7 @@ Definition canonicalise_with (Gc H : mgraph) : option (mgraph * list (N * N) * m
   end.
 Definition canonicalise_wl (ranks : list (N * Z)) (G H : mgraph) := canonicalise_with (canon_rebuild (wl_order ranks G) G) H.
 Definition canonicalise_nauty (G H : mgraph) := canonicalise_with (canon_relabel (nauty_order G) G) H.
+Definition canonicalise_generic (G H : mgraph) := canonicalise_with (canon_rebuild (generic_order G) G) H.
 
 (** * AAMValidator.smiles_check, graph level *)
 
@@ -201,6 +204,15 @@ Definition smiles_check_its (G1 H1 G2 H2 : mgraph) : bool :=
 Definition smiles_check_rc (G1 H1 G2 H2 : mgraph) : bool :=
   is_isomorphic (get_rc (its_construct G1 H1)) (get_rc (its_construct G2 H2)).
 
+(** smiles_check(..., ignore_aromaticity=ia): ITSGraph(G, H, ignore_aromaticity=ia) = [its_construct_o] of C01_Opts
+    (standard_order zeroed when |difference| < 1), everything else unchanged.  The functions are pure: a verdict
+    never depends on earlier calls. *)
+Definition vopts (ia : bool) : copts := CO ia false dflt_nattr.
+Definition smiles_check_its_o (ia : bool) (G1 H1 G2 H2 : mgraph) : bool :=
+  is_isomorphic (its_construct_o (vopts ia) G1 H1) (its_construct_o (vopts ia) G2 H2).
+Definition smiles_check_rc_o (ia : bool) (G1 H1 G2 H2 : mgraph) : bool :=
+  is_isomorphic (get_rc (its_construct_o (vopts ia) G1 H1)) (get_rc (its_construct_o (vopts ia) G2 H2)).
+
 (** * Balance, graph level: element counts (implicit hydrogens counted as H atoms) and total charge *)
 Definition el_count (e : N) (g : mgraph) : Z :=
   fold_right (fun (p : N * gnode) acc =>
@@ -226,6 +238,12 @@ Definition run_valid (G1 H1 G2 H2 : mgraph) : tok :=
      tits (get_rc (its_construct G1 H1)); tits (get_rc (its_construct G2 H2))].
 Definition run_valid_rc (G1 H1 G2 H2 : mgraph) : tok :=
   L [tbool (smiles_check_rc G1 H1 G2 H2); tits (get_rc (its_construct G1 H1)); tits (get_rc (its_construct G2 H2))].
+Definition run_canon_generic (G H : mgraph) : tok := tcanon (canonicalise_generic G H).
+(** one validator step under an option; [with_its] = the ITS verdict is evaluated too *)
+Definition run_valid_o (ia with_its : bool) (G1 H1 G2 H2 : mgraph) : tok :=
+  L ([tbool (smiles_check_rc_o ia G1 H1 G2 H2)]
+     ++ (if with_its then [tbool (smiles_check_its_o ia G1 H1 G2 H2)] else [])
+     ++ [tits (get_rc (its_construct_o (vopts ia) G1 H1)); tits (get_rc (its_construct_o (vopts ia) G2 H2))]).
 Definition run_balance (G H : mgraph) : tok :=
   L [tbool (balancedb G H);
      tset (fun e => L [tN e; I (el_count e G); I (el_count e H)]) (nodup N.eq_dec (elements_of G ++ elements_of H));
